@@ -59,6 +59,11 @@ def cases(draw, tier, wide=False):
             nm = draw(st.sampled_from(ONE_Q))
             q = [draw(st.sampled_from(free))]
         ops.append({"g": nm, "p": [draw(cgen.angles()) for _ in range(cgen.TABLE[nm][1])], "mods": [], "q": list(q)})
+    # gates that keep a basis state a basis state, on any qubit (deterministic and idle ones included)
+    for _ in range(draw(st.sampled_from([0, 0, 1, 2, 3]))):
+        nm = draw(st.sampled_from(["I", "I", "Delay", "Z", "S", "T", "PHASE", "RZ"]))
+        g = {"g": nm, "p": [draw(cgen.angles()) for _ in range(cgen.TABLE[nm][1])], "mods": [], "q": [draw(st.integers(0, n - 1))]}
+        ops.insert(draw(st.integers(0, len(ops))), g)
     # operators
     zterms = []
     for _ in range(draw(st.integers(1, 4))):
@@ -169,6 +174,9 @@ def oracle(spec):
             cl.append("three_qubit_gate_cyclic_order")
     if n >= 9:
         cl.append("width>=9")
+    used = [q for o in spec["ops"] if o["g"] not in ("I", "Delay") for q in o["q"]]
+    if any(o["g"] in ("I", "Delay") for o in spec["ops"]) and (not used or max(used) < n - 1):
+        cl.append("top_qubit_idle_or_identity_only")
     return {"classes": cl, "nontrivial": nontrivial}
 
 
